@@ -404,6 +404,40 @@ def c_unique(c, ws, sg):
     c.check("unique == pairwise != over all operands", And(n.width == 1, n.term == t))
 
 
+@contract("types.to_expr.int_literal", ["C01", "C02"], ["vsc.types.to_expr", "vsc.model.expr_literal_model.ExprLiteralModel.build"],
+          lambda tier, seed: [(v,) for v in (0, 1, -1, 2**31 - 1, 2**31, -2**31, -2**31 - 1, 2**32 - 1, 2**32, 2**32 + 5, -2**32,
+                                             0x1200000034, 2**63, 2**64 - 1, 2**64, -2**64, 2**100 + 3)], replay="none",
+          note="a Python integer used as an operand becomes a signed literal that is at least 32 bits wide, holds the value as a two's "
+               "complement number and builds without violating a Boolector precondition - also outside the 32-bit range (boundary "
+               "values up to 2^100)")
+def c_to_expr_int(c, v):
+    import vsc.types as T
+    from vsc.impl import ctor
+    from vsc.model.expr_literal_model import ExprLiteralModel
+    ctor.clear_exprs()
+    T.to_expr(v)
+    em = ctor.pop_expr()
+    ctor.clear_exprs()
+    c.check("an integer operand becomes a literal", isinstance(em, ExprLiteralModel))
+    w = em.width()
+    c.check("the literal is signed and at least 32 bits wide", em.is_signed() is True and w >= 32, info="width %r" % (w,))
+    c.check("C01: the literal's width holds the value as a two's complement number", -(1 << (w - 1)) <= v < (1 << (w - 1)),
+            info="value %d width %d" % (v, w))
+    c.check("values inside the signed 32-bit range keep the 32-bit width (R-EXPR literal rule)", w == 32 if -(1 << 31) <= v < (1 << 31) else True)
+    bt = GhostBoolector()
+    try:
+        n = em.build(bt)                     # the ghost raises where Boolector would ("exceeds bit width")
+    except GhostBtorError as e:
+        c.check("C02: building the literal violates no Boolector precondition (no foreign exception)", False, info=str(e))
+        return
+    c.check("C02: building the literal violates no Boolector precondition (no foreign exception)", True)
+    c.check("C02: the literal builds to the constant v at its own width", And(n.width == w, n.term == z3.BitVecVal(v, w)))
+    for cw in (w + 7, 128):
+        if cw > w:
+            n = em.build(bt, cw)
+            c.check("built in a wider context the constant still denotes v", And(n.width == cw, n.term == z3.BitVecVal(v, cw)))
+
+
 def uniq_list_cases(tier, seed):
     shapes = ["l", "sl", "ls", "ll", "sls", "lsl", "ssl", "lls"]
     out = []
